@@ -114,7 +114,7 @@ def run(res, tier, rng, table_diffs=()):
         cases.append(("long-loop", "stel i = 0; stel s = 0; zolang i < %d { i += 1; als i %% 7 == 0 { volgende }; s += 1; }; functie f(a) { a + 1 } [i, s, f(1)]" % n))
         cases.append(("long-loop", "functie g() { stel i = 0; zolang i < %d { i += 1; {}; als i == 0 { stop }; }; i } [g(), g()]" % n))
         cases.append(("long-loop", "stel i = 0; zolang i < %d { i += 1; als ja { 1 } anders { 2 }; zolang nee { }; }; i" % n))
-    for _ in range(300 if tier == "quick" else 8000):
+    for _ in range(300 if tier == "quick" else 4000):
         src, _ = gen.random_program(rng.fork(), size=rng.range(20, 70))
         cases.append(("random", src))
     cases += function_boundary()
